@@ -244,3 +244,55 @@ func (t *vYieldTSO) Deal() (uint64, error) {
 	defer zzverif.YieldAt("deal-done")
 	return t.TSO.Deal()
 }
+
+// VerifC01TwoNodes: around a leader transfer two nodes share the engine for a moment: the new
+// leader's revision generator is far ahead and it has written the key; the old node (generator
+// behind) still answers one conditional write — an update or delete naming any revision, also
+// exactly the one the new leader wrote. That write either fails (condition or revision drift) or,
+// if it succeeds, lands above its predecessor: the key's successful writes stay one chain in
+// revision order, and a read returns the newest of them.
+func VerifC01TwoNodes() {
+	w := vNewWorld(1)
+	key := vNames[0]
+	ahead := vNewBackend(w.s, w.base+1000, 4) // the node that has taken over
+	val := zzverif.Bytes("new.val", 1)
+	cr, err := ahead.Create(vCtx(), &proto.CreateRequest{Key: key, Value: val})
+	zzverif.Assert(err == nil && cr.Succeeded, "new leader: create")
+	zzverif.WaitIdle()
+	top := cr.Header.Revision
+	if zzverif.Choose("newLeaderUpdates", 2) == 1 {
+		up, err := ahead.Update(vCtx(), &proto.UpdateRequest{Kv: &proto.KeyValue{Key: key, Value: val, Revision: top}})
+		zzverif.Assert(err == nil && up.Succeeded, "new leader: update")
+		top = up.Header.Revision
+		zzverif.WaitIdle()
+	}
+	// the old node's late write
+	exp := zzverif.U64("exp")
+	oval := zzverif.Bytes("old.val", 1)
+	var ok bool
+	var rev uint64
+	del := zzverif.Choose("oldDeletes", 2) == 1
+	if del {
+		r, err := w.b.Delete(vCtx(), &proto.DeleteRequest{Key: key, Revision: exp})
+		if err == nil {
+			ok, rev = r.Succeeded, r.Header.Revision
+		}
+	} else {
+		r, err := w.b.Update(vCtx(), &proto.UpdateRequest{Kv: &proto.KeyValue{Key: key, Value: oval, Revision: exp}})
+		if err == nil {
+			ok, rev = r.Succeeded, r.Header.Revision
+		}
+	}
+	zzverif.WaitIdle()
+	if ok {
+		zzverif.Assert(exp == top || (del && exp == 0), "a conditional write succeeds only if it named the newest revision")
+		zzverif.Assert(rev > top, "a successful write lands above the write it named: modification revisions strictly increase along the key's history")
+		zzverif.Cover("old-node-write-succeeded")
+	} else {
+		zzverif.Cover("old-node-write-refused")
+		// the key is unchanged: the new leader still reads its own write
+		g, err := ahead.Get(vCtx(), &proto.GetRequest{Key: key})
+		zzverif.Assert(err == nil && g.Kv != nil && g.Kv.Revision == top && zzverif.BytesEq(g.Kv.Value, val), "a refused write leaves the key unchanged")
+	}
+	zzverif.Cover("done")
+}
